@@ -31,3 +31,23 @@ Record LTR := mkLTR { ltr_traversed : option LinkT; ltr_remaining : option LinkT
 Record RT := mkRT { rt_time : Z; rt_dist : Q; rt_exp : Route; rt_rem : Route }.
 #[export] Instance etaRT : Settable _ := settable! mkRT <rt_time; rt_dist; rt_exp; rt_rem>.
 Definition rt_empty : RT := mkRT 0 0 [] [].
+
+(* the activity's class name, lower-cased (what the dispatcher compares with config.dispatcher.valid_dispatch_states) *)
+Inductive SKind := K_idle | K_repositioning | K_dispatchtrip | K_servicingtrip | K_dispatchstation | K_chargingstation
+                 | K_chargequeueing | K_dispatchbase | K_reservebase | K_chargingbase | K_outofservice.
+Definition state_kind (st : VState) : SKind :=
+  match st with
+  | Idle _ => K_idle | Repositioning _ => K_repositioning | DispatchTrip _ _ => K_dispatchtrip | ServicingTrip _ _ _ => K_servicingtrip
+  | DispatchStation _ _ _ => K_dispatchstation | ChargingStation _ _ => K_chargingstation | ChargeQueueing _ _ _ => K_chargequeueing
+  | DispatchBase _ _ => K_dispatchbase | ReserveBase _ => K_reservebase | ChargingBase _ _ => K_chargingbase | OutOfService => K_outofservice
+  end.
+Definition skind_eqb (a b : SKind) : bool :=
+  match a, b with
+  | K_idle, K_idle | K_repositioning, K_repositioning | K_dispatchtrip, K_dispatchtrip | K_servicingtrip, K_servicingtrip
+  | K_dispatchstation, K_dispatchstation | K_chargingstation, K_chargingstation | K_chargequeueing, K_chargequeueing
+  | K_dispatchbase, K_dispatchbase | K_reservebase, K_reservebase | K_chargingbase, K_chargingbase | K_outofservice, K_outofservice => true
+  | _, _ => false
+  end.
+Lemma skind_eqb_eq a b : skind_eqb a b = true <-> a = b.
+Proof. destruct a, b; cbn; split; congruence. Qed.
+
